@@ -27,6 +27,10 @@ type c11Call struct {
 type c11Case struct {
 	Calls []c11Call `json:"calls"`
 	Cause string    `json:"cause"` // cancel | deadline | localClose | peerClose | malformed
+	// LiveCtx (cause "disconnect" only): the context given to Disconnect never ends. The peer does not close the
+	// connection when it reads DISCONNECT (MQTT-3.14.4-1: closing is the client's duty), so a Disconnect that waits for
+	// the peer is seen as a call that never returns.
+	LiveCtx bool `json:"live_ctx,omitempty"`
 }
 
 func c11IsCtxCause(c string) bool { return c == "cancel" || c == "deadline" || c == "cancelCause" }
@@ -60,6 +64,7 @@ func c11Grid() []c11Case {
 		}
 		if k != "disconnect" && k != "connect" {
 			out = append(out, c11Case{Calls: []c11Call{{k, "wait"}}, Cause: "disconnect"})
+			out = append(out, c11Case{Calls: []c11Call{{k, "wait"}}, Cause: "disconnect", LiveCtx: true})
 			if k == "pub2" {
 				out = append(out, c11Case{Calls: []c11Call{{k, "wait2"}}, Cause: "disconnect"})
 			}
@@ -160,6 +165,9 @@ func c11Run(tb rapid.TB, c c11Case) {
 			r.peer.sendRaw([]byte{0xF0, 0x00}, "malformed")
 		case "disconnect":
 			dctx, dc := context.WithTimeout(context.Background(), 50*time.Millisecond)
+			if c.LiveCtx {
+				dctx, dc = context.WithCancel(context.Background())
+			}
 			dret := make(chan error, 1)
 			go func() { dret <- r.cli.Disconnect(dctx) }()
 			select {
@@ -168,7 +176,7 @@ func c11Run(tb rapid.TB, c c11Case) {
 				dc()
 				cancel()
 				r.conn.Close()
-				vFailf(tb, map[string]interface{}{"log": r.log.strings(60), "goroutines": vGoroutineDump()}, "Disconnect still blocked 20 s after it was called (its own context ended after 50 ms) while %v were waiting for their acknowledgements", c.Calls)
+				vFailf(tb, map[string]interface{}{"log": r.log.strings(60), "goroutines": vGoroutineDump()}, "Disconnect still blocked 20 s after it was called (live context: %v; otherwise its own context ended after 50 ms) while %v were waiting for their acknowledgements", c.LiveCtx, c.Calls)
 			}
 			dc()
 		}
@@ -392,6 +400,9 @@ func TestVerifC11_Grid(t *testing.T) {
 func TestVerifC11_Combo(t *testing.T) {
 	vRun(t, "C11", vOpts{CurFile: true, ReplayReps: 20}, func(rt *rapid.T) c11Case {
 		c := c11Case{Cause: rapid.SampledFrom(append([]string{"disconnect"}, c11Causes...)).Draw(rt, "cause")}
+		if c.Cause == "disconnect" {
+			c.LiveCtx = rapid.Bool().Draw(rt, "liveCtx")
+		}
 		n := rapid.IntRange(2, 6).Draw(rt, "n")
 		// (a call parked inside Transport.Write holds the write lock: Disconnect has to wait for the transport there,
 		// like any other writer; that combination says nothing about the library)
